@@ -41,4 +41,15 @@ class C04(HistProp):
         return None
 
 
+    def oracle(self, tier, ctx):
+        from .common import mapkv_check
+        return super().oracle(tier, ctx) + mapkv_check(ctx)
+
+    def replay(self, ctx, rp):
+        if rp['failure']['input'].startswith('MAPKV '):
+            from .common import mapkv_check
+            return [f for f in mapkv_check(ctx) if f['input'] == rp['failure']['input']]
+        return super().replay(ctx, rp)
+
+
 PROP = C04()
